@@ -130,16 +130,10 @@ theorem sim_massign (hag : VAgreeM cx vis env vvty) (hw : Worlds cx rsv W M) {o 
                 simp only []
                 cases writePlace (ρ x) (Option.map (List.map slotIdx) sl) r1 <;> rfl
 
-theorem binSide_of_B {m : MBin} {T : VTy} (h : VOk.binSideB m T = true) : binSide m T ∧ (m = .mod → T.scalar ≠ .float) := by
-  simp only [VOk.binSideB, Bool.and_eq_true, Bool.not_eq_true', Bool.and_eq_false_iff] at h
-  refine ⟨?_, ?_⟩
-  · cases T with
-    | vec k n => trivial
-    | sc k => simpa [binSide] using h.1
-  · intro hm; subst hm
-    rcases h.2 with h2 | h2
-    · simp at h2
-    · simpa using h2
+theorem binSide_of_B {m : MBin} {T : VTy} (h : VOk.binSideB m T = true) : binSide m T := by
+  cases T with
+  | vec k n => trivial
+  | sc k => simpa [binSide, VOk.binSideB] using h
 
 /-- evaluating a place expression reads the place and changes nothing -/
 theorem eval_place {W : World} {ρ : VStore} {lhs : VExpr} {x : Var} {sl : Option (List SwizzleSlot)}
